@@ -35,7 +35,7 @@ def role_origin(prog, R, fn, os_, role, last_proj=None):
     return True
 
 
-def check(ctx):
+def _check_own(ctx):
     prog = ctx.prog
     R = Roles(prog)
     lookup = ctx.anchor("LOOKUP", lambda p: R.need("LOOKUP"))
@@ -304,3 +304,12 @@ def _after_unlink(fn, b, head_sites, inner_sites, split_block):
         return False
     avoid = set(head_sites) | set(inner_sites)
     return b not in fn.reachable(fn.normal_succs(split_block), avoid)
+
+
+def check(ctx):
+    _check_own(ctx)
+    from .engine import import_rules
+    # a record that overruns its slot, a misplaced free-slot remainder or a lost re-link make the files undecodable too
+    import_rules(ctx, "c06", {"free-slot-field-position", "no-lost-link-update", "large-pop-conservation"})
+    import_rules(ctx, "c09", {"sizer-covers-writer", "slot-honoured"})
+    import_rules(ctx, "c08", {"relink"})
